@@ -6,7 +6,7 @@ from checks import modelbased
 MANIFEST = {
     "technique": "model-based property testing (Hypothesis): pad/fill reference functions and option-encoding round trips vs rpad, rpad_and_clip, fillna and toIndexedOptionArray64/toByteMaskedArray/simplify on generated encodings",
     "level_text": "Generated-input exploration: arrays with options at any level in all five encodings (negative index, byte mask of either polarity with non-0/1 bytes, bit mask in both bit orders and polarities with lengths that are not multiples of 8 and arbitrary padding bits, unmasked) x target 0..5 x axis x clip; rpad/rpad_and_clip/fillna must equal the reference functions and every conversion between encodings must preserve the decoded value. Held on everything generated outside the recorded known findings.",
-    "level_note": "Trusted: akmodel.ops (rpad/fillna), akmodel.decode (which states the five encodings' meaning independently of the C++), the /verif bridge. ak.pad_none/fill_none(axis)/is_none/mask are Python-level.",
+    "level_note": "Trusted: akmodel.ops (rpad/fillna), akmodel.decode (which states the five encodings' meaning independently of the C++), the /verif bridge. The Python-level part (ak.mask with a flat mask and either polarity, ak.is_none, ak.fill_none at axis 0 / None, ak.pad_none at axis 0 / 1) runs on the akshim emulation of awkward._ext; deeper axes of these functions are covered through the tier-L operations only.",
 }
 RULE = ("case = (physical description with options, rpad|rpad_and_clip|fillna|convert, arguments); expected = reference function on the decoded value; "
         "non-trivial = the array holds >= 1 None and >= 1 non-None and the result is non-empty; distinct by hash of the case")
@@ -20,3 +20,117 @@ def _nontrivial(T, vals, desc, spec):
 
 
 modelbased.install(globals(), "C09", ["rpad", "rpad_and_clip", "fillna", "optconvert"], CFG, nontrivial=_nontrivial)
+
+
+# ---- Python-level part: ak.mask / ak.is_none / ak.fill_none / ak.pad_none on the tier-P emulation (added after the seeded change
+# C09-c - ByteMaskedArray::simplify_optiontype forgetting IndexedOptionArray32 contents, reached through ak.mask - was missed by the
+# tier-L part, whose inputs are valid layouts and therefore never have an option directly inside an option)
+from hypothesis import strategies as st  # noqa: E402
+
+from checks import pcommon as P  # noqa: E402
+from vlib.common import Violation  # noqa: E402
+
+_l9_strategy, _l9_run_case, _l9_case_label, _l9_pre_exclude, _l9_setup = strategy, run_case, case_label, pre_exclude, setup  # noqa: F821
+P9CFG = gen.Cfg(max_depth=2, leaf_dtypes=("int64", "float64"), records=False, unions=False, strings=False, unknown=False, numpy_nd=False,
+                max_len=5, max_list=3)
+
+
+@st.composite
+def _p9_cases(draw):
+    T = draw(gen.types(P9CFG))
+    vals = draw(gen.values(T, P9CFG))
+    desc = draw(gen.encode(T, vals, P9CFG))
+    fn = draw(st.sampled_from(["mask", "mask", "is_none", "fill_none", "pad_none"]))
+    case = {"part": "P", "fn": fn, "desc": desc}
+    if fn == "mask":
+        case["m"] = [draw(st.booleans()) for _ in vals]
+        case["valid_when"] = draw(st.booleans())
+        case["then"] = draw(st.sampled_from(["none", "is_none", "fill_none"]))
+    elif fn == "fill_none":
+        case["value"] = draw(st.sampled_from([0, -1, 2.5]))
+        case["axis"] = draw(st.sampled_from([0, None]))
+    elif fn == "pad_none":
+        case["target"] = draw(st.integers(0, 4))
+        case["clip"] = draw(st.booleans())
+        case["axis"] = draw(st.sampled_from([0, 1]))
+    return case
+
+
+def strategy(tier):  # noqa: F811
+    return st.one_of(_l9_strategy(tier), _l9_strategy(tier), _l9_strategy(tier), _l9_strategy(tier), _l9_strategy(tier), _p9_cases())
+
+
+def case_label(case):  # noqa: F811
+    return ("P:" + case["fn"]) if case.get("part") == "P" else _l9_case_label(case)
+
+
+def pre_exclude(case):  # noqa: F811
+    return None if case.get("part") == "P" else _l9_pre_exclude(case)
+
+
+def setup(flavour, tier):  # noqa: F811
+    _l9_setup(flavour, tier)
+    P.ak()
+
+
+def _fill_all(v, x):
+    if v is None:
+        return x
+    if isinstance(v, list):
+        return [_fill_all(e, x) for e in v]
+    return v
+
+
+def _p9_run(case):
+    A = P.ak()
+    buffers = []
+    a = P.harray(case["desc"], buffers)
+    snaps = P.snapshot(buffers)
+    T, V = M.decode(case["desc"])
+    fn = case["fn"]
+    tags = ["P:" + fn]
+    islist = M.strip_option(T)[0] in ("list", "regular")
+    if fn == "mask":
+        import numpy as np
+        m, vw = case["m"], case["valid_when"]
+        expected = [v if (b == vw) else None for v, b in zip(V, m)]
+        kind, res = P.outcome(lambda: A.mask(a, np.array(m, dtype=np.bool_), valid_when=vw))
+        if kind == "ok" and case["then"] == "is_none":
+            expected = [v is None for v in expected]
+            kind, res = P.outcome(lambda: A.is_none(res))
+            tags.append("then:is_none")
+        elif kind == "ok" and case["then"] == "fill_none":
+            expected = [(-7 if v is None else v) for v in expected]
+            kind, res = P.outcome(lambda: A.fill_none(res, -7, axis=0))
+            tags.append("then:fill_none")
+    elif fn == "is_none":
+        expected = [v is None for v in V]
+        kind, res = P.outcome(lambda: A.is_none(a))
+    elif fn == "fill_none":
+        x = case["value"]
+        expected = _fill_all(V, x) if case["axis"] is None else [(x if v is None else v) for v in V]
+        kind, res = P.outcome(lambda: A.fill_none(a, x, axis=case["axis"]))
+    else:
+        t, clip, axis = case["target"], case["clip"], case["axis"]
+        if axis == 0:
+            expected = (V[:t] if clip else list(V)) + [None] * max(0, t - len(V))
+        else:
+            if not islist:
+                return {"discarded": "pad_none(axis=1) on an array without lists"}
+            expected = [None if v is None else ((v[:t] if clip else list(v)) + [None] * max(0, t - len(v))) for v in V]
+        kind, res = P.outcome(lambda: A.pad_none(a, t, axis=axis, clip=clip))
+        tags.append("axis:%d" % axis)
+    P.check_purity(buffers, snaps, fn)
+    if kind != "ok":
+        raise Violation("refused:P:" + fn, "ak.%s raised %s: %s" % (fn, kind, str(res)[:300]), expected=M.jsonable(expected))
+    _, got = P.read(res, fn)
+    if not M.same_value(got, expected):
+        raise Violation("value:P:" + fn, "ak.%s differs from the reference" % fn, expected=M.jsonable(expected), observed=M.jsonable(got))
+    feats = gen.features(case["desc"]) & {"IndexedOptionArray32", "IndexedOptionArray64", "ByteMaskedArray", "BitMaskedArray", "UnmaskedArray"}
+    return {"tags": tags + sorted(feats), "nontrivial": bool(V) and ("None" in repr(expected) or "True" in repr(expected) or fn in ("fill_none",)), "sample_class": "P:" + fn}
+
+
+def run_case(case):  # noqa: F811
+    if case.get("part") == "P":
+        return _p9_run(case)
+    return _l9_run_case(case)
